@@ -248,6 +248,10 @@ class Attribute(_BaseAttribute):
         """
         return self._data.keys().__iter__()
 
+    def __contains__(self, key):
+        """Whether a value was written for element `key`"""
+        return key in self._data
+
     def as_array(self, container_size):
         out = np.full((container_size, self.elemsize), self.default_value, dtype= self.type.dtype)
         for i,x in self._data.items():
@@ -332,6 +336,10 @@ class ArrayAttribute(_BaseAttribute):
         """
         for i in range(self.n_elem):
             yield self._data[i]
+
+    def __contains__(self, key):
+        """Whether element `key` has a value (every element of the container has one in a dense attribute)"""
+        return isinstance(key, (int, np.integer)) and 0 <= key < self.n_elem
 
     def as_array(self, *args):
         return np.squeeze(self._data, axis=1) if self.elemsize == 1 else self._data # one row per element, whatever the number of elements
